@@ -502,8 +502,10 @@ def gen_scenario(rng, sid, p_malformed=0.15, max_depth=5, p_multi=0.3, allow_asy
             else:
                 rho[s] = rng.choice(fpool)
         rounds.append(rho)
+    # declared as `go = b.from_.any(cond=.., unless=..)`: the guards live on per-state copies of the transition
+    via_any = rng.random() < 0.2
     return dict(id=sid, names=names, entries=entries, rounds=rounds, force_async=force_async,
-                malformed=malformed)
+                malformed=malformed, via_any=via_any)
 
 
 # ----------------------------------------------------------------------------- small-scope enumeration
